@@ -771,6 +771,42 @@ func init() {
 		}})
 
 	// ---- plain Ethereum value transfer (legacy / access list / dynamic fee)
+	defOp(&OpDef{Name: "multi_send",
+		Gen: func(w *e.World, r *e.RNG) e.Step {
+			a := r.Intn(nAcc(w))
+			amt := r.Amount(w.Balance(w.Acct(a).Acc))
+			return e.Step{K: "tx", Op: "multi_send", A: a, B: w.AnyAcct(r), N: []int64{int64(w.AnyAcct(r))}, S: []string{amt.String(), r.Amount(amt).String()}}
+		},
+		Msgs: func(w *e.World, st *e.Step) (*e.Account, []sdk.Msg, bool) {
+			a, b, c := w.Acct(st.A), w.Acct(st.B), w.Acct(int(st.NArg(0))%(len(w.Accts)+e.NExtra))
+			total, part := e.BigS(st.SArg(0)), e.BigS(st.SArg(1))
+			if part.Cmp(total) > 0 || total.Sign() <= 0 {
+				return nil, nil, false
+			}
+			outs := []banktypes.Output{banktypes.NewOutput(b.Acc, e.Native(new(big.Int).Sub(total, part)))}
+			if part.Sign() > 0 {
+				outs = append(outs, banktypes.NewOutput(c.Acc, e.Native(part)))
+			}
+			if new(big.Int).Sub(total, part).Sign() == 0 {
+				outs = outs[1:]
+			}
+			return a, []sdk.Msg{banktypes.NewMsgMultiSend([]banktypes.Input{banktypes.NewInput(a.Acc, e.Native(total))}, outs)}, true
+		}})
+	// the staking precompile called directly by the account (an Ethereum tx): another way to move one's coins
+	defOp(&OpDef{Name: "eth_pc_delegate",
+		Gen: func(w *e.World, r *e.RNG) e.Step {
+			a := w.AnyAcct(r)
+			return e.Step{K: "tx", Op: "eth_pc_delegate", A: a, N: []int64{int64(r.Intn(len(w.Vals)))}, S: []string{r.Amount(w.Balance(w.Acct(a).Acc)).String()}}
+		},
+		Eth: func(w *e.World, st *e.Step) (*e.Account, e.EthArgs, bool) {
+			a := w.Acct(st.A)
+			data, err := loadABI("staking").Pack("delegate", a.Eth, valAddr(w, st.NArg(0)).String(), e.BigS(st.SArg(0)))
+			if err != nil {
+				return nil, e.EthArgs{}, false
+			}
+			to := addrStaking
+			return a, e.EthArgs{Type: 2, To: &to, Data: data, Gas: 600_000}, true
+		}})
 	defOp(&OpDef{Name: "eth_transfer",
 		Gen: func(w *e.World, r *e.RNG) e.Step {
 			a := w.AnyAcct(r)
